@@ -84,7 +84,8 @@ def main() -> int:
             meta = os.path.join(sd, name, "meta.json")
             if os.path.exists(meta):
                 m = json.load(open(meta))
-                items.append({"id": name, "prop": m["property"], "patch": os.path.join(sd, name, "patch.diff"), "expect": "violation"})
+                items.append({"id": name, "prop": m["property"], "patch": os.path.join(sd, name, "patch.diff"),
+                              "expect": m.get("expect", "violation")})
     else:
         from selftest.mutants import MUTANTS
 
